@@ -5,6 +5,7 @@ from ..cfg import cfg_of
 from ..callgraph import callgraph
 from .. import oblig
 from ..spec import reviewed as RV
+from ..spec import patterns as PAT
 
 EXPLANATION = ("obligation engine over built MIR: every panic-capable construct (overflow/bounds/division Assert terminators, calls of "
                "std APIs documented to panic such as unwrap/expect/indexing by range/copy_from_slice, explicit panic!/assert!/"
@@ -106,6 +107,17 @@ def check_sites(ctx, D, side, reach, rule):
                 ent, moved = cands[0][1], True
                 counts[h] = counts.get(("moved", cands[0][0]), 0) + 1
                 counts[("moved", cands[0][0])] = counts[h]
+        pat = None
+        if ent is None:
+            pat = PAT.match(P, D, s, ctx.prop)
+        if pat is not None:
+            void = [c for c in pat.get("requires", ()) if not side.holds(c)]
+            if void:
+                ctx.bad(rule, "reviewed-but-side-condition-failed:%s" % key, ctx.where(b, s.span),
+                        "this site is safe only while %s holds, and that rule fails on this tree" % ", ".join(void))
+            else:
+                ctx.ok(rule, "reviewed:%s:pattern:%s:%s" % (pat["class"], pat["pattern"], key), ctx.where(b, s.span), pat["why"])
+            continue
         if ent is not None and counts[h] <= ent.get("count", 1):
             void = [c for c in ent.get("requires", ()) if not side.holds(c)]
             if void:
